@@ -34,6 +34,7 @@ type rioCase struct {
 	Damage   string  `json:"damage"` // "", "trunc", "header", "fileheader"
 	DmgStep  int     `json:"dmgstep"`
 	WFile    string  `json:"wfile"`  // "" (Path option) | "append" | "rdwr" | "wronly": the writer gets an *os.File the caller opened with these flags (File option)
+	Proto    bool    `json:"proto"`  // the protobuf access path (package recordio/proto): see rioproto.go
 	Legacy   int     `json:"legacy"` // 1..3: the file is laid out in that older format version by the harness (the library only reads these)
 }
 
@@ -211,6 +212,12 @@ func runRIO(args []string) error {
 			w.Close() // closed twice (defer + explicit)
 			return offs, true, nil
 
+		}
+		if c.Proto {
+			if err := runProtoCase(tr, path, c, rb, tokOf, errTok); err != nil {
+				return err
+			}
+			continue
 		}
 		if c.Legacy > 0 {
 			var lerr error
